@@ -44,25 +44,25 @@ theorem router_facts_matching_order :
     routerFact "inMatchingOrder.sort" = some "sort.Sort(sort.Reverse(sort.StringSlice(ps)))" := by decide +kernel
 
 /-- gorillamux: encoded-path mux router; one fresh Route per (path, server) carrying that server; FindRoute returns a copy;
-    newSrv drops one trailing slash of any non-empty base path; a path item's servers are assigned to the variable of the
-    enclosing function (the leak that `gLoop true` models, F-C09-10) -/
+    newSrv drops one trailing slash of any non-empty base path; a path item's servers are assigned to a variable that the
+    loop body redeclares on every iteration (`servers := servers`: no leak to the following path items, `gLoop`) -/
 theorem router_facts_gorillamux :
     routerFact "gorilla.newRouter.mux" = some "muxRouter := mux.NewRouter().UseEncodedPath()" ∧
     routerFact "gorilla.newRouter.routeLiterals" = some "1" ∧
     routerFact "gorilla.newRouter.routePerServer" = some "true" ∧
     routerFact "gorilla.newRouter.route" = some "Spec: doc, Server: s.server, Path: path, PathItem: pathItem, Method: \"\", Operation: nil" ∧
-    routerFact "gorilla.newRouter.pathServers" = some "servers, err = makeServers(pathItem.Servers)" ∧
+    routerFact "gorilla.newRouter.pathServers" = some "servers := servers | servers, err = makeServers(pathItem.Servers)" ∧
     routerFact "gorilla.findRoute.copy" = some "route := *r.routes[i]" ∧
     routerFact "gorilla.findRoute.returns" = some "return &route, vars, nil | return nil, nil, routers.ErrMethodNotAllowed | return nil, nil, routers.ErrPathNotFound" ∧
     routerFact "gorilla.newSrv.trim" = some "len(path) > 0 && path[len(path)-1] == '/'" := by decide +kernel
 
-/-- legacy: NewRouter ranges over two Go maps (hence the arbitrary key order of the legacy theorems), its routes have no
-    Server and FindRoute never sets one (`setSrv = false`, F-C09-8); only the document's servers are read (F-C09-9); the
+/-- legacy: NewRouter ranges over two Go maps (hence the arbitrary key order of the legacy theorems), its stored routes have
+    no Server and FindRoute stores the matched one into the copy it returns; only the document's servers are read (F-C09-9); the
     decoded `url.Path` is matched without servers, the escaped `url.String()` with servers (`legacyFindW`) -/
 theorem router_facts_legacy :
     routerFact "legacy.newRouter.ranges" = some "doc.Paths.Map() | pathItem.Operations()" ∧
     routerFact "legacy.newRouter.routeFields" = some "Spec,Path,PathItem,Method,Operation" ∧
-    routerFact "legacy.findRoute.setsRouteServer" = some "false" ∧
+    routerFact "legacy.findRoute.setsRouteServer" = some "r.Server = server" ∧
     routerFact "legacy.findRoute.serversFrom" = some "doc.Servers" ∧
     routerFact "legacy.findRoute.remainingPath" = some "remainingPath = url.Path | server, paramValues, remainingPath = servers.MatchURL(url)" ∧
     routerFact "servers.matchURL.input" = some "rawURL := parsedURL.String()" ∧
@@ -99,7 +99,7 @@ theorem docKeys_declared (d : Doc) (k : Key) :
 
 /- NewRouter adds the keys while ranging over Go maps, so the legacy theorems are stated for the trie built from an
    arbitrary list `ks` of keys (instantiate `ks` with any rearrangement of `docKeys d`); `legacyFind d r` is the
-   instance `ks = docKeys d`, `setSrv = false`. -/
+   instance `ks = docKeys d`. -/
 
 /- Full statement (false for the code, finding #14):
      legacyMatchOf ks m rem = some (k, vals) → k ∈ ks ∧ spell k.sufs vals = some (m ++ ' ' :: rem)
@@ -127,13 +127,13 @@ theorem legacy_match_declared (ks : List Key) (m rem : Str) (k : Key) (vals : Li
 
 /-- a route returned by the legacy router is a declared (method, template) pair, found in what remains of the URL after
     the first matching document-level server, and (non-empty bindings) its key spells that remainder; the `Route.Server`
-    it carries is nil as the code is (`setSrv = false`), the matched server after the repair -/
-theorem legacy_route_sound_partial (setSrv : Bool) (d : Doc) (ks : List Key) (hks : ∀ k ∈ ks, k ∈ docKeys d)
+    it carries is that matched server (nil for a document without servers) -/
+theorem legacy_route_sound_partial (d : Doc) (ks : List Key) (hks : ∀ k ∈ ks, k ∈ docKeys d)
     (r : Req) (t m : Str) (ps : List (Str × Str)) (sv : SrvRef)
-    (h : legacyFindOrd setSrv d ks r = .route t m ps sv) :
+    (h : legacyFindOrd d ks r = .route t m ps sv) :
     ∃ si sp rem k vals, legacyServer d r = some (si, sp, rem) ∧ legacyMatchOf ks r.method rem = some (k, vals) ∧
       k.template = t ∧ k.method = m ∧
-      sv = (match si with | some i => if setSrv then SrvRef.doc i else SrvRef.none | none => SrvRef.none) ∧
+      sv = (match si with | some i => SrvRef.doc i | none => SrvRef.none) ∧
       (∃ pd ∈ d.paths, pd.template = t ∧ m ∈ pd.methods) ∧
       ((∀ v ∈ vals, v ≠ []) → spell k.sufs vals = some (stripSlashes (r.method ++ ' ' :: rem))) := by
   unfold legacyFindOrd at h
@@ -166,11 +166,11 @@ theorem legacy_match_complete_partial (ks : List Key) (m rem : Str) (k : Key) (v
   exact match_complete k.sufs (legacyRootOf ks) k2 vals _ [] h2 hr
 
 /-- route_complete (legacy, partial): under a matching server, a request that some stored key reads is routed -/
-theorem legacy_route_complete_partial (setSrv : Bool) (d : Doc) (ks : List Key) (r : Req) (si : Option Nat)
+theorem legacy_route_complete_partial (d : Doc) (ks : List Key) (r : Req) (si : Option Nat)
     (sp : List (Str × Str)) (rem : Str) (k : Key) (vals : List Str)
     (hb : legacyBuildOK d = true) (hs : legacyServer d r = some (si, sp, rem))
     (hk : k ∈ ks) (hr : Reads k.sufs vals (stripSlashes (r.method ++ ' ' :: rem))) :
-    ∃ t m ps sv, legacyFindOrd setSrv d ks r = .route t m ps sv := by
+    ∃ t m ps sv, legacyFindOrd d ks r = .route t m ps sv := by
   have hm := legacy_match_complete_partial ks r.method rem k vals hk hr
   unfold legacyFindOrd
   simp only [hb, Bool.not_true, Bool.false_eq_true, if_false, hs]
@@ -193,14 +193,14 @@ theorem legacy_literal_wins (ks : List Key) (k0 : Key) (hk : k0 ∈ ks) (hlit : 
   · exact ⟨h5, h6.symm⟩
 
 /-- … and FindRoute then returns that key's route (no path parameter from the template) -/
-theorem legacy_literal_route (setSrv : Bool) (d : Doc) (ks : List Key) (r : Req) (hb : legacyBuildOK d = true)
+theorem legacy_literal_route (d : Doc) (ks : List Key) (r : Req) (hb : legacyBuildOK d = true)
     (si : Option Nat) (sp : List (Str × Str)) (rem : Str) (hs : legacyServer d r = some (si, sp, rem))
     (k0 : Key) (hk : k0 ∈ ks) (hlit : '{' ∉ k0.str)
     (hreq : stripSlashes (r.method ++ ' ' :: rem) = stripSlashes k0.str) :
     ∃ k' sv, k' ∈ ks ∧ k'.sufs = k0.sufs ∧
-      legacyFindOrd setSrv d ks r = .route k'.template k'.method (mapSetAll (mapSetAll [] sp) (((Tok.names k'.toks).map trimStar).zip [])) sv := by
+      legacyFindOrd d ks r = .route k'.template k'.method (mapSetAll (mapSetAll [] sp) (((Tok.names k'.toks).map trimStar).zip [])) sv := by
   obtain ⟨k', h1, h2, h3⟩ := legacy_literal_wins ks k0 hk hlit r.method rem hreq
-  refine ⟨k', (match si with | some i => if setSrv then SrvRef.doc i else SrvRef.none | none => SrvRef.none), h2, h3, ?_⟩
+  refine ⟨k', (match si with | some i => SrvRef.doc i | none => SrvRef.none), h2, h3, ?_⟩
   unfold legacyFindOrd
   simp only [hb, Bool.not_true, Bool.false_eq_true, if_false, hs, h1]
   cases si <;> rfl
@@ -243,9 +243,9 @@ theorem legacy_server_none (d : Doc) (r : Req) (sp : List (Str × Str)) (rem : S
    meets the (method, template) pairs — a Go map iteration order.
    What holds: … when no two different keys share a suffix path (`keyCollision = false`): then every rearrangement of the
    keys builds the same trie. -/
-theorem legacy_order_independent_partial (setSrv : Bool) (d : Doc) (ks : List Key) (hp : ks.Perm (docKeys d))
+theorem legacy_order_independent_partial (d : Doc) (ks : List Key) (hp : ks.Perm (docKeys d))
     (hnc : keyCollision (docKeys d) = false) (r : Req) :
-    legacyRootOf ks = legacyRoot d ∧ legacyFindOrd setSrv d ks r = legacyFindOrd setSrv d (docKeys d) r := by
+    legacyRootOf ks = legacyRoot d ∧ legacyFindOrd d ks r = legacyFindOrd d (docKeys d) r := by
   have hroot : legacyRootOf ks = legacyRootOf (docKeys d) :=
     (build_perm hp.symm (noCollision_of_keyCollision hnc) emptyNode).symm
   refine ⟨hroot, ?_⟩
@@ -254,11 +254,11 @@ theorem legacy_order_independent_partial (setSrv : Bool) (d : Doc) (ks : List Ke
 
 /-- no_match_is_error (legacy): no matching server, or no trie match and no path key spelled by the remaining path,
     yields path-not-found; and the router never answers with the nil-dereference outcome -/
-theorem legacy_no_match_is_error (setSrv : Bool) (d : Doc) (ks : List Key) (r : Req) (hb : legacyBuildOK d = true) :
-    (legacyServer d r = none → legacyFindOrd setSrv d ks r = .notFound) ∧
+theorem legacy_no_match_is_error (d : Doc) (ks : List Key) (r : Req) (hb : legacyBuildOK d = true) :
+    (legacyServer d r = none → legacyFindOrd d ks r = .notFound) ∧
     (∀ si sp rem, legacyServer d r = some (si, sp, rem) → legacyMatchOf ks r.method rem = none →
-        legacyFindOrd setSrv d ks r = .notFound ∨ legacyFindOrd setSrv d ks r = .methodNotAllowed) ∧
-    legacyFindOrd setSrv d ks r ≠ .panic := by
+        legacyFindOrd d ks r = .notFound ∨ legacyFindOrd d ks r = .methodNotAllowed) ∧
+    legacyFindOrd d ks r ≠ .panic := by
   refine ⟨?_, ?_, ?_⟩
   · intro h; simp [legacyFindOrd, hb, h]
   · intro si sp rem hs hm
@@ -280,8 +280,8 @@ theorem legacy_no_match_is_error (setSrv : Bool) (d : Doc) (ks : List Key) (r : 
 
 /-- error kinds (legacy): the answer is method-not-allowed exactly when a server matches, the trie finds nothing and the
     remaining path is literally a declared template that lacks the request method; every other failure is path-not-found -/
-theorem legacy_method_not_allowed_iff (setSrv : Bool) (d : Doc) (ks : List Key) (r : Req) (hb : legacyBuildOK d = true) :
-    legacyFindOrd setSrv d ks r = .methodNotAllowed ↔
+theorem legacy_method_not_allowed_iff (d : Doc) (ks : List Key) (r : Req) (hb : legacyBuildOK d = true) :
+    legacyFindOrd d ks r = .methodNotAllowed ↔
       ∃ si sp rem pd, legacyServer d r = some (si, sp, rem) ∧ legacyMatchOf ks r.method rem = none ∧
         lookupPath rem d.paths = some pd ∧ r.method ∉ pd.methods := by
   unfold legacyFindOrd
@@ -306,32 +306,24 @@ theorem legacy_method_not_allowed_iff (setSrv : Bool) (d : Doc) (ks : List Key) 
 
 /-! ## gorillamux router -/
 
-/-- every compiled mux route comes from a declared path item and a server declared somewhere in the document
-    (document level or path-item level; the placeholder only when the document declares no server) -/
+/-- every compiled mux route comes from a declared path item and one of the servers that apply to it (its own when it
+    declares some, otherwise the document's; the placeholder only when neither declares one) -/
 theorem gorilla_routes_declared {d : Doc} {rs : List GRoute} (h : gorillaRoutes d = some rs) {r : GRoute} (hr : r ∈ rs) :
-    ∃ pd ∈ d.paths, ∃ g, mkRoute pd g = some r ∧ DeclSrv d g := by
-  unfold gorillaRoutes gorillaRoutesL at h
-  split at h
-  · simp at h
-  · rename_i ds hds
-    obtain ⟨pd, hpd, g, hm, hg⟩ := gLoop_mem h r hr
-    refine ⟨pd, (mem_inMatchingOrder _ _).1 hpd, g, hm, ?_⟩
-    rcases hg with hg | hg | ⟨q, hq, hne, l, hl, hgl⟩
-    · exact Or.inl (gMakeServers_mem hds hg)
-    · exact Or.inl (gMakeServers_mem hds hg)
-    · exact Or.inr ⟨q, (mem_inMatchingOrder _ _).1 hq, hne, gMakeServers_mem hl hgl⟩
+    ∃ pd ∈ d.paths, ∃ g, mkRoute pd g = some r ∧ EffSrv d pd g := by
+  obtain ⟨pd, hpd, g, hg, hmk⟩ := ((routes_effective h).1 r).1 hr
+  exact ⟨pd, hpd, g, hmk, hg⟩
 
-/-- route_sound (gorillamux, full strength): a returned route carries the request method; its template is declared with
-    that method; its `Route.Server` is (the pointer kept in) a compiled server `g` that is declared in the document and
-    that, together with the template, reproduces the request: path = base path of g + template filled with non-empty
-    slash-free values, scheme and host match g; the returned parameters are exactly the extracted values (plus the
-    default of a port variable) -/
+/-- route_sound (gorillamux, full strength — since the repair of F-C09-10 without the leak-shape hypothesis): a returned
+    route carries the request method; its template is declared with that method; its `Route.Server` is (the pointer kept
+    in) a compiled server `g` that applies to the route's own path item and that, together with the template, reproduces
+    the request: path = base path of g + template filled with non-empty slash-free values, scheme and host match g; the
+    returned parameters are exactly the extracted values (plus the default of a port variable) -/
 theorem gorilla_route_sound (d : Doc) (req : Req) (t m : Str) (ps : List (Str × Str)) (sv : SrvRef)
     (h : gorillaFind d req = .route t m ps sv) :
     m = req.method ∧ ∃ pd ∈ d.paths, pd.template = t ∧ m ∈ pd.methods ∧
-      ∃ g b, g.ref = sv ∧ DeclSrv d g ∧ Reproduces g t req b ∧
+      ∃ g b, g.ref = sv ∧ EffSrv d pd g ∧ Reproduces g t req b ∧
         ps = mapSetAll (mapSetAll [] b) (match g.upd with | some kv => [kv] | none => []) := by
-  unfold gorillaFind gorillaFindL at h
+  unfold gorillaFind at h
   split at h
   · simp at h
   · rename_i rs hrs
@@ -342,48 +334,6 @@ theorem gorilla_route_sound (d : Doc) (req : Req) (t m : Str) (ps : List (Str ×
     refine ⟨hmeth, pd, hpd, by rw [← e1, ht], by rw [hmeth, ← e2]; exact hdecl, g, b, by rw [← e3]; exact hsv, hg, ?_, by rw [← e3]; exact hps⟩
     rw [← ht, e1]
     exact gRouteMatch_reproduces hmk hm
-
-/-- after the repair of the path-item servers leak the returned server is one of the servers that apply to the route's own
-    path item (its own `servers` when it declares some, otherwise the document's) — full strength -/
-theorem gorillaFixed_route_server_effective (d : Doc) (req : Req) (t m : Str) (ps : List (Str × Str)) (sv : SrvRef)
-    (h : gorillaFindFixed d req = .route t m ps sv) :
-    ∃ pd ∈ d.paths, pd.template = t ∧ m ∈ pd.methods ∧ ∃ g b, g.ref = sv ∧ EffSrv d pd g ∧ Reproduces g t req b := by
-  unfold gorillaFindFixed gorillaFindL at h
-  split at h
-  · simp at h
-  · rename_i rs hrs
-    obtain ⟨pre, r, post, b, e, _, hm, ht, hmeth, hdecl, hsv, _⟩ := gFirst_route h
-    have hr : r ∈ rs := by rw [e]; simp
-    unfold gorillaRoutesL at hrs
-    split at hrs
-    · simp at hrs
-    · rename_i ds hds
-      obtain ⟨pd, hpd, g, hmk, hg⟩ := (gLoop_fixed_mem hrs r).1 hr
-      obtain ⟨e1, e2, e3, _, _⟩ := mkRoute_some hmk
-      refine ⟨pd, (mem_inMatchingOrder _ _).1 hpd, by rw [← e1, ht], by rw [hmeth, ← e2]; exact hdecl, g, b,
-        by rw [← e3]; exact hsv, ?_, by rw [← ht, e1]; exact gRouteMatch_reproduces hmk hm⟩
-      unfold EffSrv
-      split
-      · rename_i he; simp only [he, if_true] at hg; exact gMakeServers_mem hds hg
-      · rename_i he
-        simp only [he, if_false] at hg
-        obtain ⟨l, hl, hgl⟩ := hg
-        exact gMakeServers_mem hl hgl
-
-/-- the leak of path-item servers is invisible unless, in matching order, a path item with `servers` precedes one without -/
-theorem gorilla_leak_only_on_shape (d : Doc) (req : Req) (hsh : leakShape (inMatchingOrder d.paths) = false) :
-    gorillaFind d req = gorillaFindFixed d req := by
-  unfold gorillaFind gorillaFindFixed gorillaFindL
-  rw [gorillaRoutes_leak_eq d hsh]
-
-/- Full statement (false for the code, finding F-C09-10: the servers of an earlier path item leak):
-     gorillaFind d req = .route t m ps sv → the server is one that applies to the path item of t.
-   What holds: … on documents without the leak shape. -/
-theorem gorilla_route_server_effective_partial (d : Doc) (req : Req) (t m : Str) (ps : List (Str × Str)) (sv : SrvRef)
-    (hsh : leakShape (inMatchingOrder d.paths) = false) (h : gorillaFind d req = .route t m ps sv) :
-    ∃ pd ∈ d.paths, pd.template = t ∧ m ∈ pd.methods ∧ ∃ g b, g.ref = sv ∧ EffSrv d pd g ∧ Reproduces g t req b := by
-  rw [gorilla_leak_only_on_shape d req hsh] at h
-  exact gorillaFixed_route_server_effective d req t m ps sv h
 
 /-- the `Route.Server` pointer of a server that applies to a path item: nil only if neither the path item nor the document
     declares servers, otherwise the i-th server of the path item's own list, or of the document's when it has none -/
@@ -408,8 +358,7 @@ theorem effSrv_ref (d : Doc) (pd : PathDecl) (g : GSrv) (h : EffSrv d pd g) :
     (path template, scheme set, host template) -/
 theorem gorilla_not_found_iff (d : Doc) (req : Req) (rs : List GRoute) (h : gorillaRoutes d = some rs) :
     gorillaFind d req = .notFound ↔ ∀ r ∈ rs, gRouteMatch r req = none := by
-  unfold gorillaFind gorillaFindL
-  unfold gorillaRoutes at h
+  unfold gorillaFind
   rw [h]
   exact gFirst_notFound_iff rs req
 
@@ -431,8 +380,7 @@ theorem gorilla_method_not_allowed_iff (d : Doc) (req : Req) (rs : List GRoute) 
     gorillaFind d req = .methodNotAllowed ↔
       ∃ pre r post, rs = pre ++ r :: post ∧ (∀ r' ∈ pre, gRouteMatch r' req = none) ∧
         gRouteMatch r req ≠ none ∧ req.method ∉ r.methods := by
-  unfold gorillaFind gorillaFindL
-  unfold gorillaRoutes at h
+  unfold gorillaFind
   rw [h]
   clear h
   induction rs with
@@ -489,8 +437,7 @@ theorem gorilla_route_complete_partial (d : Doc) (req : Req) (rs : List GRoute) 
     (hhost : r.srv.host = [] ∨ ∃ hb, gsubst r.hostToks hb = some (hostFor r req) ∧ ∀ p ∈ hb, GoodFor '.' p.2)
     (hnoshadow : ∀ r' ∈ rs, gRouteMatch r' req ≠ none → req.method ∈ r'.methods) :
     ∃ t ps sv, gorillaFind d req = .route t req.method ps sv := by
-  unfold gorillaFind gorillaFindL
-  unfold gorillaRoutes at h
+  unfold gorillaFind
   rw [h]
   apply gFirst_complete _ hnoshadow
   refine ⟨r, hr, ?_⟩
@@ -506,38 +453,22 @@ theorem gorilla_route_complete_partial (d : Doc) (req : Req) (rs : List GRoute) 
       | none => simp [hm2] at hc2
       | some x => by_cases hh : r.srv.host = [] <;> simp [hscheme, hh]
 
-/-- the compiled route of a path item and a server that applies to it is in the route list (after the repair; as the code
-    is, on documents without the leak shape) -/
+/-- the compiled route of a path item and a server that applies to it is in the route list -/
 theorem gorilla_route_listed (d : Doc) (rs : List GRoute) (h : gorillaRoutes d = some rs)
-    (hsh : leakShape (inMatchingOrder d.paths) = false)
-    (pd : PathDecl) (hpd : pd ∈ d.paths) (g : GSrv) (hg : EffSrv d pd g) (r : GRoute) (hmk : mkRoute pd g = some r) : r ∈ rs := by
-  unfold gorillaRoutes at h
-  rw [gorillaRoutes_leak_eq d hsh] at h
-  unfold gorillaRoutesL at h
-  split at h
-  · simp at h
-  · rename_i ds hds
-    refine (gLoop_fixed_mem h r).2 ⟨pd, (mem_inMatchingOrder _ _).2 hpd, g, hmk, ?_⟩
-    unfold EffSrv at hg
-    split
-    · rename_i he; simp only [he, if_true] at hg; exact gMakeServers_get hds hg
-    · rename_i he
-      simp only [he, if_false] at hg
-      obtain ⟨l, hl⟩ := gLoop_compiles h pd ((mem_inMatchingOrder _ _).2 hpd) he
-      exact ⟨l, hl, gMakeServers_get hl hg⟩
+    (pd : PathDecl) (hpd : pd ∈ d.paths) (g : GSrv) (hg : EffSrv d pd g) (r : GRoute) (hmk : mkRoute pd g = some r) : r ∈ rs :=
+  ((routes_effective h).1 r).2 ⟨pd, hpd, g, hg, hmk⟩
 
 /-- route_complete (gorillamux) under declared servers: a request that fills "base path + template" of a path item and
     one of the servers that apply to it, with the server's scheme and host, and a declared method, is routed — unless
-    another matching route lacks the method (#40), on documents without the leak shape (F-C09-10) -/
+    another matching route lacks the method (#40) -/
 theorem gorilla_route_complete_servers_partial (d : Doc) (req : Req) (rs : List GRoute) (h : gorillaRoutes d = some rs)
-    (hsh : leakShape (inMatchingOrder d.paths) = false)
     (pd : PathDecl) (hpd : pd ∈ d.paths) (g : GSrv) (hg : EffSrv d pd g) (r : GRoute) (hmk : mkRoute pd g = some r)
     (b : List (Str × Str)) (hfill : gsubst r.pathToks b = some req.path) (hgood : ∀ p ∈ b, GoodFor '/' p.2)
     (hscheme : schemeOK r req = true)
     (hhost : r.srv.host = [] ∨ ∃ hb, gsubst r.hostToks hb = some (hostFor r req) ∧ ∀ p ∈ hb, GoodFor '.' p.2)
     (hnoshadow : ∀ r' ∈ rs, gRouteMatch r' req ≠ none → req.method ∈ r'.methods) :
     ∃ t ps sv, gorillaFind d req = .route t req.method ps sv :=
-  gorilla_route_complete_partial d req rs h r (gorilla_route_listed d rs h hsh pd hpd g hg r hmk) b hfill hgood hscheme hhost hnoshadow
+  gorilla_route_complete_partial d req rs h r (gorilla_route_listed d rs h pd hpd g hg r hmk) b hfill hgood hscheme hhost hnoshadow
 
 /-- route_complete for a document without servers (none at document level, none at path-item level): filling a declared
     template with non-empty slash-free values and asking with a declared method is routed, unless another matching
@@ -549,16 +480,6 @@ theorem gorilla_route_complete_noservers_partial (d : Doc) (req : Req) (rs : Lis
     (b : List (Str × Str)) (hfill : gsubst toks b = some req.path) (hgood : ∀ p ∈ b, GoodFor '/' p.2)
     (hnoshadow : ∀ r' ∈ rs, gRouteMatch r' req ≠ none → req.method ∈ r'.methods) :
     ∃ t ps sv, gorillaFind d req = .route t req.method ps sv := by
-  have hsh : leakShape (inMatchingOrder d.paths) = false := by
-    have : ∀ l : List PathDecl, (∀ p ∈ l, p.servers = []) → leakShape l = false := by
-      intro l
-      induction l with
-      | nil => intro _; rfl
-      | cons x xs ih =>
-        intro hx
-        simp only [leakShape, Bool.or_eq_false_iff, Bool.and_eq_false_iff]
-        exact ⟨Or.inl (by simp [hx x (by simp)]), ih (fun p hp => hx p (by simp [hp]))⟩
-    exact this _ (fun p hp => hps p ((mem_inMatchingOrder _ _).1 hp))
   have hm : mkRoute pd noSrv = some ⟨pd.template, pd.methods, noSrv, toks, []⟩ := by
     have hh : gparseS ([] : Str) = some [] := by simp [gparseS, gparse]
     unfold mkRoute
@@ -568,7 +489,7 @@ theorem gorilla_route_complete_noservers_partial (d : Doc) (req : Req) (rs : Lis
     unfold EffSrv
     simp only [hps pd hpd, if_true]
     exact Or.inl ⟨hs, rfl⟩
-  exact gorilla_route_complete_servers_partial d req rs h hsh pd hpd noSrv hg _ hm b hfill hgood (by simp [schemeOK, noSrv])
+  exact gorilla_route_complete_servers_partial d req rs h pd hpd noSrv hg _ hm b hfill hgood (by simp [schemeOK, noSrv])
     (Or.inl rfl) hnoshadow
 
 /-- literal_wins (gorillamux): a route is returned only if no compiled route of a path with fewer variables
@@ -576,8 +497,7 @@ theorem gorilla_route_complete_noservers_partial (d : Doc) (req : Req) (rs : Lis
 theorem gorilla_literal_wins (d : Doc) (req : Req) (rs : List GRoute) (hrs : gorillaRoutes d = some rs)
     (t m : Str) (ps : List (Str × Str)) (sv : SrvRef) (h : gorillaFind d req = .route t m ps sv) :
     ∀ r0 ∈ rs, nvars r0.template < nvars t → gRouteMatch r0 req = none := by
-  unfold gorillaFind gorillaFindL at h
-  unfold gorillaRoutes at hrs
+  unfold gorillaFind at h
   rw [hrs] at h
   obtain ⟨pre, r, post, b, e, hpre, _, ht, _, _⟩ := gFirst_route h
   have hpw := pairwise_routes hrs
@@ -745,17 +665,17 @@ theorem spec_accepts_route (d : Doc) (r : Req) (t m : Str) (ps : List (Str × St
 
 /-- route_sound against the spec: a returned route is a candidate of the spec — same template, same binding, and the
     `Route.Server` it names is the server under which the spec found the candidate — that declares the method -/
-theorem gorilla_refines_spec_sound (e : Bool) (d : Doc) (hd : PlainDoc d) (hsh : leakShape (inMatchingOrder d.paths) = false)
+theorem gorilla_refines_spec_sound (e : Bool) (d : Doc) (hd : PlainDoc d)
     (req : Req) (t m : Str) (ps : List (Str × Str)) (sv : SrvRef) (h : gorillaFind d req = .route t m ps sv) :
     m = req.method ∧ ∃ c ∈ specCands e d req, c.template = t ∧ c.server = sv ∧ c.declares = true ∧
       ps = mapSetAll (mapSetAll [] c.params) [] := by
-  unfold gorillaFind gorillaFindL at h
+  unfold gorillaFind at h
   split at h
   · simp at h
   · rename_i rs hrs
     obtain ⟨pre, r, post, b, e0, _, hm, ht, hmeth, hdecl, hsv, hps⟩ := gFirst_route h
     have hr : r ∈ rs := by rw [e0]; simp
-    obtain ⟨pd, hpd, g, hg, hmk⟩ := ((routes_effective hrs hsh).1 r).1 hr
+    obtain ⟨pd, hpd, g, hg, hmk⟩ := ((routes_effective hrs).1 r).1 hr
     obtain ⟨e1, e2, e3, _, _⟩ := mkRoute_some hmk
     have hc := cand_of_match e d hd req pd hpd g hg b (gRouteMatch_reproduces hmk hm)
     refine ⟨hmeth, _, List.mem_flatMap.2 ⟨pd, hpd, hc⟩, by rw [← e1, ht], by rw [← e3]; exact hsv, ?_, ?_⟩
@@ -776,12 +696,11 @@ theorem gorilla_refines_spec_sound (e : Bool) (d : Doc) (hd : PlainDoc d) (hsh :
       rw [hps, e3, hupd]
 
 /-- no_match_is_error against the spec: the router answers path-not-found exactly when the spec has no candidate -/
-theorem gorilla_refines_spec_not_found (e : Bool) (d : Doc) (hd : PlainDoc d) (hsh : leakShape (inMatchingOrder d.paths) = false)
+theorem gorilla_refines_spec_not_found (e : Bool) (d : Doc) (hd : PlainDoc d)
     (rs : List GRoute) (hrs : gorillaRoutes d = some rs) (req : Req) :
     gorillaFind d req = .notFound ↔ specCands e d req = [] := by
   rw [gorilla_not_found_iff d req rs hrs]
-  unfold gorillaRoutes at hrs
-  obtain ⟨heff, hbuilt⟩ := routes_effective hrs hsh
+  obtain ⟨heff, hbuilt⟩ := routes_effective hrs
   constructor
   · intro hall
     apply List.eq_nil_iff_forall_not_mem.2
@@ -806,13 +725,12 @@ theorem gorilla_refines_spec_not_found (e : Bool) (d : Doc) (hd : PlainDoc d) (h
 /- Full statement (false for the code, finding #40): some candidate declares the method → routed.
    What holds: … when every candidate of the spec declares the method (no matching template lacks it). -/
 theorem gorilla_refines_spec_complete_partial (e : Bool) (d : Doc) (hd : PlainDoc d)
-    (hsh : leakShape (inMatchingOrder d.paths) = false) (rs : List GRoute) (hrs : gorillaRoutes d = some rs) (req : Req)
+    (rs : List GRoute) (hrs : gorillaRoutes d = some rs) (req : Req)
     (hex : specCands e d req ≠ []) (hall : ∀ c ∈ specCands e d req, c.declares = true) :
     ∃ t ps sv, gorillaFind d req = .route t req.method ps sv := by
-  unfold gorillaFind gorillaFindL
-  unfold gorillaRoutes at hrs
+  unfold gorillaFind
   rw [hrs]
-  obtain ⟨heff, hbuilt⟩ := routes_effective hrs hsh
+  obtain ⟨heff, hbuilt⟩ := routes_effective hrs
   apply gFirst_complete
   · obtain ⟨c, hc⟩ := List.exists_mem_of_ne_nil _ hex
     simp only [specCands, List.mem_flatMap] at hc
@@ -834,13 +752,12 @@ theorem gorilla_refines_spec_complete_partial (e : Bool) (d : Doc) (hd : PlainDo
 /-- literal_wins against the spec: when some literal template is a candidate, the returned route is a literal template
     (so, by `gorilla_refines_spec_sound`, one of the literal candidates) -/
 theorem gorilla_refines_spec_literal_wins (e : Bool) (d : Doc) (hd : PlainDoc d)
-    (hsh : leakShape (inMatchingOrder d.paths) = false) (rs : List GRoute) (hrs : gorillaRoutes d = some rs) (req : Req)
+    (rs : List GRoute) (hrs : gorillaRoutes d = some rs) (req : Req)
     (t m : Str) (ps : List (Str × Str)) (sv : SrvRef) (h : gorillaFind d req = .route t m ps sv)
     (c0 : Cand) (hc0 : c0 ∈ specCands e d req) (hlit : isLiteralT c0.template = true) : isLiteralT t = true := by
   have hwin := gorilla_literal_wins d req rs hrs t m ps sv h
   have hrs' := hrs
-  unfold gorillaRoutes at hrs'
-  obtain ⟨heff, hbuilt⟩ := routes_effective hrs' hsh
+  obtain ⟨heff, hbuilt⟩ := routes_effective hrs'
   -- the literal candidate's route matches the request
   simp only [specCands, List.mem_flatMap] at hc0
   obtain ⟨pd0, hpd0, hcp0⟩ := hc0
@@ -852,7 +769,7 @@ theorem gorilla_refines_spec_literal_wins (e : Bool) (d : Doc) (hd : PlainDoc d)
     rw [(mkRoute_some hmk0).1, ← ht0]
     exact (isLiteralT_iff_nvars (by rw [ht0]; exact htt0)).1 hlit
   -- the returned route's template parses as well
-  unfold gorillaFind gorillaFindL at h
+  unfold gorillaFind at h
   rw [hrs'] at h
   obtain ⟨pre, r, post, b, e0, _, _, ht, _, _, _, _⟩ := gFirst_route h
   have hr : r ∈ rs := by rw [e0]; simp
@@ -872,9 +789,9 @@ theorem gorilla_refines_spec_literal_wins (e : Bool) (d : Doc) (hd : PlainDoc d)
 /- Full statement (false for the code, finding #14): a route returned by the legacy router is a candidate of the spec.
    What holds: … when every bound value is non-empty and neither the request path nor the returned template ends in '/'
    (document without servers, no `{name*}` wildcard, method names without '/', '{' or space). -/
-theorem legacy_refines_spec_sound_partial (setSrv e : Bool) (d : Doc) (hs : d.servers = []) (hps : ∀ p ∈ d.paths, p.servers = [])
+theorem legacy_refines_spec_sound_partial (e : Bool) (d : Doc) (hs : d.servers = []) (hps : ∀ p ∈ d.paths, p.servers = [])
     (ks : List Key) (hks : ∀ k ∈ ks, k ∈ docKeys d) (r : Req) (t m : Str) (ps : List (Str × Str)) (sv : SrvRef)
-    (h : legacyFindOrd setSrv d ks r = .route t m ps sv)
+    (h : legacyFindOrd d ks r = .route t m ps sv)
     (hmeth : '/' ∉ m ∧ '{' ∉ m ∧ ' ' ∉ m ∧ ' ' ∉ r.method)
     (ht : t.head? = some '/') (htl : t.getLast? ≠ some '/') (hrl : r.path.getLast? ≠ some '/')
     (hne : ∀ k vals, legacyMatchOf ks r.method r.path = some (k, vals) → (∀ v ∈ vals, v ≠ []) ∧ NoWildcard k.toks) :
@@ -885,7 +802,7 @@ theorem legacy_refines_spec_sound_partial (setSrv e : Bool) (d : Doc) (hs : d.se
     | true => rfl
     | false => simp [hb] at h
   obtain ⟨si, sp, rem, k, vals, hsrv, hmatch, hkt, hkm, hsv, ⟨pd, hpd, hpt, hpm⟩, _⟩ :=
-    legacy_route_sound_partial setSrv d ks hks r t m ps sv h
+    legacy_route_sound_partial d ks hks r t m ps sv h
   have hsrv' := (legacy_server_none d r [] r.path).2 ⟨hs, rfl, rfl⟩
   rw [hsrv'] at hsrv
   simp only [Option.some.injEq, Prod.mk.injEq] at hsrv
@@ -966,13 +883,13 @@ theorem legacy_refines_spec_sound_partial (setSrv e : Bool) (d : Doc) (hs : d.se
    What holds: … when no variable of the candidate's template is followed by more text in its segment (document without
    servers; no trailing slashes, no wildcard, method names without '/' and '{'); the route may be that of another
    overlapping template (`legacy_match_declared`), a literal one if there is one (`legacy_literal_wins`). -/
-theorem legacy_refines_spec_complete_partial (setSrv e : Bool) (d : Doc) (hs : d.servers = []) (hps : ∀ p ∈ d.paths, p.servers = [])
+theorem legacy_refines_spec_complete_partial (e : Bool) (d : Doc) (hs : d.servers = []) (hps : ∀ p ∈ d.paths, p.servers = [])
     (hb : legacyBuildOK d = true) (ks : List Key) (hks : ∀ k ∈ docKeys d, k ∈ ks) (r : Req)
     (c : Cand) (hc : c ∈ specCands e d r) (hdecl : c.declares = true)
     (hmeth : '/' ∉ r.method ∧ '{' ∉ r.method) (hrl : r.path.getLast? ≠ some '/')
     (ht : c.template.head? = some '/') (htl : c.template.getLast? ≠ some '/')
     (hnw : NoWildcard (⟨r.method, c.template⟩ : Key).toks) (hvt : varThenLiteral (sparseS c.template) = false) :
-    ∃ t m ps sv, legacyFindOrd setSrv d ks r = .route t m ps sv := by
+    ∃ t m ps sv, legacyFindOrd d ks r = .route t m ps sv := by
   obtain ⟨pd, hpd, hct, hcd, hcase⟩ := spec_cand_server e d r c hc
   have hfill : ∃ vs, Fills (sparseS pd.template) vs r.path [] := by
     rcases hcase with ⟨_, _, _, h⟩ | ⟨i, s, hh, _⟩
@@ -1021,7 +938,7 @@ theorem legacy_refines_spec_complete_partial (setSrv e : Bool) (d : Doc) (hs : d
       have := Reads.const (r.method ++ [' ']) hreads
       simpa using this
     have hsrv : legacyServer d r = some (none, [], r.path) := (legacy_server_none d r [] r.path).2 ⟨hs, rfl, rfl⟩
-    exact legacy_route_complete_partial setSrv d ks r none [] r.path k vs hb hsrv (hks k hk) hr
+    exact legacy_route_complete_partial d ks r none [] r.path k vs hb hsrv (hks k hk) hr
 
 /-! ## witnesses: inside each exclusion class the modelled code really differs from the spec -/
 
@@ -1062,7 +979,7 @@ theorem witness_gorilla_shadow40 :
 open W in
 /-- finding #33: both routers accept env = qa although enum = [prod, dev] -/
 theorem witness_srv_enum33 :
-    legacyFind d33 r33 = .route (s "/a") get [(s "env", s "qa")] .none ∧
+    legacyFind d33 r33 = .route (s "/a") get [(s "env", s "qa")] (.doc 0) ∧
     gorillaFind d33 r33 = .route (s "/a") get [(s "env", s "qa")] (.doc 0) ∧
     specOutcome true d33 r33 = (.notFound, []) ∧
     exclSrvEnum33 d33 r33 = true ∧
@@ -1083,7 +1000,7 @@ theorem witness_legacy_url_form :
     legacyFind dForm rFormAbs = .notFound ∧
     (specOutcome true dForm rFormAbs).1 = .route ∧
     exclLegacyURLForm .legacy dForm rFormAbs = true ∧
-    legacyFind dForm rFormRel = .route (s "/a") get [] .none ∧
+    legacyFind dForm rFormRel = .route (s "/a") get [] (.doc 0) ∧
     exclLegacyURLForm .legacy dForm rFormRel = false ∧
     gorillaFind dForm rFormAbs = .route (s "/a") get [] (.doc 0) := by decide +kernel
 
@@ -1096,50 +1013,46 @@ theorem witness_legacy_first_server :
     exclLegacyFirstServer .legacy dFirst rFirst = true := by decide +kernel
 
 open W in
-/-- F-C09-8: with two servers of different base paths gorillamux returns the server the request came through; the legacy
-    router returns a route without server (the model of the repaired router returns it) -/
-theorem witness_legacy_no_route_server :
+/-- regression for F-C09-8 (fixed by a8dc95c): with two servers of different base paths both routers return the server the
+    request came through; a route naming the other server is not accepted -/
+theorem regression_legacy_route_server :
     gorillaFind dTwo (reqRel "GET" "/v2/x/a") = .route (s "/a") get [] (.doc 1) ∧
     gorillaFind dTwo (reqRel "GET" "/v1/b/7") = .route (s "/b/{x}") get [(s "x", s "7")] (.doc 0) ∧
-    legacyFind dTwo (reqRel "GET" "/v2/x/a") = .route (s "/a") get [] .none ∧
-    legacyFindFixed dTwo (reqRel "GET" "/v2/x/a") = .route (s "/a") get [] (.doc 1) ∧
+    legacyFind dTwo (reqRel "GET" "/v2/x/a") = .route (s "/a") get [] (.doc 1) ∧
+    legacyFind dTwo (reqRel "GET" "/v1/b/7") = .route (s "/b/{x}") get [(s "x", s "7")] (.doc 0) ∧
     specOutcome true dTwo (reqRel "GET" "/v2/x/a") = (.route, [⟨s "/a", [], true, .doc 1⟩]) ∧
-    specAccepts dTwo (reqRel "GET" "/v2/x/a") (legacyFind dTwo (reqRel "GET" "/v2/x/a")) = false ∧
-    specAccepts dTwo (reqRel "GET" "/v2/x/a") (legacyFindFixed dTwo (reqRel "GET" "/v2/x/a")) = true ∧
+    specAccepts dTwo (reqRel "GET" "/v2/x/a") (legacyFind dTwo (reqRel "GET" "/v2/x/a")) = true ∧
     specAccepts dTwo (reqRel "GET" "/v2/x/a") (gorillaFind dTwo (reqRel "GET" "/v2/x/a")) = true ∧
     specAccepts dTwo (reqRel "GET" "/v2/x/a") (.route (s "/a") get [] (.doc 0)) = false ∧
-    exclLegacyNoRouteServer .legacy dTwo (reqRel "GET" "/v2/x/a") = true := by decide +kernel
+    specAccepts dTwo (reqRel "GET" "/v2/x/a") (.route (s "/a") get [] .none) = false := by decide +kernel
 
 open W in
 /-- F-C09-7: /a and /a/ share a node of the legacy trie; the key added last wins, so GET /a reaches /a/ in one insertion
     order and /a in the other; the property requires the literal /a; gorillamux keeps the two apart -/
 theorem witness_legacy_key_collision :
-    legacyFindOrd false dColl (docKeys dColl) (req "GET" "/a") = .route (s "/a/") get [] .none ∧
-    legacyFindOrd false dColl (docKeys dColl).reverse (req "GET" "/a") = .route (s "/a") get [] .none ∧
-    (legacyFindAll false dColl (req "GET" "/a")).length = 2 ∧
+    legacyFindOrd dColl (docKeys dColl) (req "GET" "/a") = .route (s "/a/") get [] .none ∧
+    legacyFindOrd dColl (docKeys dColl).reverse (req "GET" "/a") = .route (s "/a") get [] .none ∧
+    (legacyFindAll dColl (req "GET" "/a")).length = 2 ∧
     specOutcome true dColl (req "GET" "/a") = (.route, [⟨s "/a", [], true, .none⟩]) ∧
     exclLegacyKeyCollision .legacy dColl = true ∧
     gorillaFind dColl (req "GET" "/a") = .route (s "/a") get [] .none ∧
     gorillaFind dColl (req "GET" "/a/") = .route (s "/a/") get [] .none := by decide +kernel
 
 open W in
-/-- F-C09-10: the servers of path item /b stay in force for /a, which comes after it in matching order and declares none -/
-theorem witness_gorilla_path_servers_leak :
-    leakShape (inMatchingOrder dLeak.paths) = true ∧
-    gorillaFind dLeak (reqRel "GET" "/v1/a") = .notFound ∧
-    gorillaFind dLeak (reqRel "GET" "/p/a") = .route (s "/a") get [] (.path (s "/b") 0) ∧
-    gorillaFindFixed dLeak (reqRel "GET" "/v1/a") = .route (s "/a") get [] (.doc 0) ∧
-    gorillaFindFixed dLeak (reqRel "GET" "/p/a") = .notFound ∧
+/-- regression for F-C09-10 (fixed by ad7d462): the servers of path item /b do not apply to /a, which comes after it in
+    matching order and declares none -/
+theorem regression_gorilla_path_servers :
+    gorillaFind dLeak (reqRel "GET" "/v1/a") = .route (s "/a") get [] (.doc 0) ∧
+    gorillaFind dLeak (reqRel "GET" "/p/a") = .notFound ∧
     specOutcome true dLeak (reqRel "GET" "/v1/a") = (.route, [⟨s "/a", [], true, .doc 0⟩]) ∧
     specOutcome true dLeak (reqRel "GET" "/p/a") = (.notFound, []) ∧
-    exclGorillaPathServersLeak .gorilla dLeak (reqRel "GET" "/v1/a") = true ∧
-    exclGorillaPathServersLeak .gorilla dLeak (reqRel "GET" "/p/b") = false ∧
-    gorillaFind dLeak (reqRel "GET" "/p/b") = .route (s "/b") get [] (.path (s "/b") 0) := by decide +kernel
+    gorillaFind dLeak (reqRel "GET" "/p/b") = .route (s "/b") get [] (.path (s "/b") 0) ∧
+    gorillaFind dLeak (reqRel "GET" "/v1/b") = .notFound := by decide +kernel
 
 open W in
 /-- F-C09-9: the legacy router does not read path-item level servers -/
 theorem witness_legacy_path_servers :
-    legacyFind dPathSrv (reqRel "GET" "/v1/a") = .route (s "/a") get [] .none ∧
+    legacyFind dPathSrv (reqRel "GET" "/v1/a") = .route (s "/a") get [] (.doc 0) ∧
     specOutcome true dPathSrv (reqRel "GET" "/v1/a") = (.notFound, []) ∧
     legacyFind dPathSrv (reqRel "GET" "/p/a") = .notFound ∧
     specOutcome true dPathSrv (reqRel "GET" "/p/a") = (.route, [⟨s "/a", [], true, .path (s "/a") 0⟩]) ∧
@@ -1153,15 +1066,15 @@ open W in
 /-- both routers, family with shared prefixes, server with host and port variables and a trailing slash:
     literal wins, two variables are extracted, mid-segment variable, unknown method, near miss -/
 example :
-    legacyFind dFam (rFam "GET" "/v1/a/b") = .route (s "/a/b") get [(s "env", s "dev"), (s "port", s "8443")] .none ∧
+    legacyFind dFam (rFam "GET" "/v1/a/b") = .route (s "/a/b") get [(s "env", s "dev"), (s "port", s "8443")] (.doc 0) ∧
     gorillaFind dFam (rFam "GET" "/v1/a/b") = .route (s "/a/b") get [(s "env", s "dev"), (s "port", s "8443")] (.doc 0) ∧
     legacyFind dFam (rFam "GET" "/v1/a/7/c/9") =
-      .route (s "/a/{x}/c/{y}") get [(s "env", s "dev"), (s "port", s "8443"), (s "x", s "7"), (s "y", s "9")] .none ∧
+      .route (s "/a/{x}/c/{y}") get [(s "env", s "dev"), (s "port", s "8443"), (s "x", s "7"), (s "y", s "9")] (.doc 0) ∧
     gorillaFind dFam (rFam "GET" "/v1/a/7/c/9") =
       .route (s "/a/{x}/c/{y}") get [(s "env", s "dev"), (s "x", s "7"), (s "y", s "9"), (s "port", s "8443")] (.doc 0) ∧
     gorillaFind dFam (rFam "GET" "/v1/report.pdf") = .route (s "/report.{format}") get [(s "env", s "dev"), (s "format", s "pdf"), (s "port", s "8443")] (.doc 0) ∧
-    legacyFind dFam (rFam "POST" "/v1/a/7") = .route (s "/a/{x}") post [(s "env", s "dev"), (s "port", s "8443"), (s "x", s "7")] .none ∧
-    specAccepts dFam (rFam "GET" "/v1/a/7/c/9") (legacyFindFixed dFam (rFam "GET" "/v1/a/7/c/9")) = true ∧
+    legacyFind dFam (rFam "POST" "/v1/a/7") = .route (s "/a/{x}") post [(s "env", s "dev"), (s "port", s "8443"), (s "x", s "7")] (.doc 0) ∧
+    specAccepts dFam (rFam "GET" "/v1/a/7/c/9") (legacyFind dFam (rFam "GET" "/v1/a/7/c/9")) = true ∧
     specAccepts dFam (rFam "GET" "/v1/a/b") (gorillaFind dFam (rFam "GET" "/v1/a/b")) = true ∧
     exclLegacy14 .legacy dFam (rFam "GET" "/v1/a/7/c/9") = false ∧
     legacyFind dFam (rFam "FOO" "/v1/a/b") = .methodNotAllowed ∧
@@ -1196,10 +1109,9 @@ example : ∃ rs, gorillaRoutes d40 = some rs ∧ (∀ r' ∈ rs, gRouteMatch r'
   decide +kernel
 
 open W in
-/-- the hypotheses of `gorilla_route_server_effective_partial` hold on a document with two servers and on one with path-item
-    level servers on every path (no leak shape), and a route is returned -/
-example : leakShape (inMatchingOrder dTwo.paths) = false ∧ leakShape (inMatchingOrder dPathSrv.paths) = false ∧
-    gorillaFind dTwo (reqRel "GET" "/v2/x/b/7") = .route (s "/b/{x}") get [(s "x", s "7")] (.doc 1) := by decide +kernel
+/-- `gorilla_route_sound` is not vacuous: a route through the second of two servers, and one through a path item's own server -/
+example : gorillaFind dTwo (reqRel "GET" "/v2/x/b/7") = .route (s "/b/{x}") get [(s "x", s "7")] (.doc 1) ∧
+    gorillaFind dPathSrv (reqRel "GET" "/p/a") = .route (s "/a") get [] (.path (s "/a") 0) := by decide +kernel
 
 open W in
 /-- the hypotheses of `legacy_literal_wins` hold for the literal key GET /a/b of the family (which also holds /a/{x}), in
@@ -1215,12 +1127,13 @@ example : legacyServer dTwo (reqRel "GET" "/v2/x/a") = some (some 1, [], s "/a")
 
 open W in
 /-- the hypotheses of the `gorilla_refines_spec_*` theorems hold for the document with two servers of different base
-    paths and for the one whose only path item has its own server: plain relative servers, no leak shape, route list
+    paths and for the one whose only path item has its own server: plain relative servers, route list
     built; a candidate exists and every candidate declares the method -/
-example : PlainDoc dTwo ∧ PlainDoc dPathSrv ∧ leakShape (inMatchingOrder dTwo.paths) = false ∧
+example : PlainDoc dTwo ∧ PlainDoc dPathSrv ∧ PlainDoc dLeak ∧
     (gorillaRoutes dTwo).isSome = true ∧
     specCands true dTwo (reqRel "GET" "/v2/x/b/7") = [⟨s "/b/{x}", [(s "x", s "7")], true, .doc 1⟩] := by
-  refine ⟨?_, ?_, by decide +kernel, by decide +kernel, by decide +kernel⟩
+  refine ⟨?_, ?_, ?_, by decide +kernel, by decide +kernel⟩
+  · unfold PlainDoc PlainRel; decide +kernel
   · unfold PlainDoc PlainRel; decide +kernel
   · unfold PlainDoc PlainRel; decide +kernel
 
